@@ -672,6 +672,12 @@ func replayCase(sub string, raw json.RawMessage) string {
 			return bad(err)
 		}
 		return checkOne(c)
+	case "interleave":
+		var c ilvCase
+		if err := json.Unmarshal(raw, &c); err != nil {
+			return bad(err)
+		}
+		return checkInterleave(c)
 	case "after-end", "after-error", "advance-gen":
 		var c advCase
 		if err := json.Unmarshal(raw, &c); err != nil {
@@ -1050,6 +1056,19 @@ func TestC07(t *testing.T) {
 	}
 	rec.Exhaustive("Next past the end / past an error value: fixed programs and error sites x contexts x guard forms", true)
 
+	if tooMany() {
+		return
+	}
+
+	// ------------------------------------------------------------------
+	// (E4b, R) several iterators alive at once: scripted three-step
+	// histories for every pair of short programs, then the state machine
+	ilvCap := rec.Scale(300, 1000)
+	interleaveScripted(ilvCap)
+	if tooMany() {
+		return
+	}
+	interleaveRapid(t, ilvCap, rec.Scale(12000, 200000))
 	if tooMany() {
 		return
 	}
